@@ -87,13 +87,41 @@ Qed.
 (* ------------------------------------------------------------------ packed lengths *)
 Lemma len_bounds : forall (h : hdr) (maxp seg : Z) off data,
   seg <= maxp - hdr_len h - fss_len h - crc_len h -> zlen data <= seg ->
+  6 <= maxp - hdr_len h - fss_len h - crc_len h ->
   pdu_len (PFileData h off data) <= maxp /\
-  (0 <= seg -> forall a c s, pdu_len (PAck h a c s) <= maxp) /\
-  (hdr_len h + 6 + fss_len h + crc_len h <= maxp -> forall c ck sz, pdu_len (PEof h c ck sz None) <= maxp).
+  (forall a c s, pdu_len (PAck h a c s) <= maxp) /\
+  (forall c ck sz, pdu_len (PEof h c ck sz None) <= maxp).
 Proof.
-  intros h maxp seg off data H1 H2. unfold pdu_len.
+  intros h maxp seg off data H1 H2 H3. unfold pdu_len.
   assert (4 <= fss_len h) by (unfold fss_len; destruct (h_large h); lia).
   repeat split; intros; lia.
+Qed.
+
+(* the File Data PDUs and the EOF PDU of the stream of C07 fit the maximum packet length *)
+Lemma stream_len_bounds : forall (c : lcfg) (seq0 bits : Z) (p : putreq) (r : rcfg) (d : bytes) (mode : Z),
+  let w := Z.max (l_idw c) (pr_dstw p) in
+  let large := 4294967295 <? zlen d in
+  let derived := r_max_packet r - (4 + 2 * w + bits / 8) - (if large then 8 else 4) - (if r_crc r then 2 else 0) in
+  let seg := match r_max_seg r with Some m => Z.min m derived | None => derived end in
+  let h := mkHdr TOWARDS_RECEIVER mode (r_crc r) large (l_id c) (pr_dst p) w seq0 (bits / 8) in
+  1 <= seg -> 6 <= derived ->
+  (forall t, In t (tiles seg d) -> pdu_len (fd_of h t) <= r_max_packet r) /\
+  (forall cond ck sz, pdu_len (PEof h cond ck sz None) <= r_max_packet r) /\
+  (forall a cond st, pdu_len (PAck h a cond st) <= r_max_packet r).
+Proof.
+  intros c seq0 bits p r d mode w large derived seg h Hseg Hd.
+  assert (Hdh : derived = r_max_packet r - hdr_len h - fss_len h - crc_len h).
+  { unfold derived, h, hdr_len, fss_len, crc_len. cbn [h_idw h_seqw h_large h_crc]. lia. }
+  assert (Hsd : seg <= derived) by (unfold seg; destruct (r_max_seg r); lia).
+  rewrite Hdh in Hd, Hsd.
+  split; [|split].
+  - intros t Ht. apply In_nth_error in Ht. destruct Ht as [k Hk].
+    destruct (tiles_exact seg d Hseg) as [_ T]. destruct (T k t Hk) as [_ [[_ B] _]].
+    unfold fd_of. exact (proj1 (len_bounds h (r_max_packet r) seg (fst t) (snd t) Hsd B Hd)).
+  - assert (B0 : zlen (@nil Z) <= seg) by (unfold zlen; cbn [length]; lia).
+    exact (proj2 (proj2 (len_bounds h (r_max_packet r) seg 0 [] Hsd B0 Hd))).
+  - assert (B0 : zlen (@nil Z) <= seg) by (unfold zlen; cbn [length]; lia).
+    exact (proj1 (proj2 (len_bounds h (r_max_packet r) seg 0 [] Hsd B0 Hd))).
 Qed.
 
 (* ------------------------------------------------------------------ symbolic execution *)
@@ -319,6 +347,10 @@ Proof.
 Qed.
 
 
+Lemma eof_fits_false : forall h maxp, hdr_len h + 6 + fss_len h + crc_len h <= maxp ->
+  (maxp <? hdr_len h + 1 + 1 + 4 + fss_len h + crc_len h) = false.
+Proof. intros h maxp H. apply Z.ltb_ge. lia. Qed.
+
 Definition st1 (c : lcfg) (p : putreq) (r : rcfg) (fs : tree) (seq0 bits mode : Z) (closure : bool) (step : Z) : src :=
   mkSrc c ST_BUSY step 0 []
     (mkSP None None None 0 None 0 0 (Some 0) false false None (Some r) closure
@@ -334,14 +366,13 @@ Lemma ts_ok : forall (c : lcfg) (seq0 bits : Z) (fs : tree) (p : putreq) (r : rc
   let cf := mkSconf (l_id c) w (pr_dst p) w seq0 (bits / 8) mode large (r_crc r) in
   pr_names p = Some (sn, dn) -> lookup fs sn = Some (File d) ->
   (bits = 8 \/ bits = 16 \/ bits = 32) -> 0 <= seq0 < 2 ^ bits ->
-  1 <= seg ->
+  1 <= seg -> 6 <= derived ->
   exists s2,
     transaction_start (st1 c p r fs seq0 bits mode closure SS_TRANSACTION_START) = (s2, Ok tt) /\
     Inv c p r fs d cf seg closure (l_id c, seq0) 0 (s2 <| s_step := SS_SENDING_METADATA |>).
 Proof.
-  intros c seq0 bits fs p r sn dn d mode closure w large derived seg cf Hn Hl Hb Hs Hseg.
-  assert (Hd : 1 <= derived).
-  { unfold seg in Hseg. destruct (r_max_seg r); lia. }
+  intros c seq0 bits fs p r sn dn d mode closure w large derived seg cf Hn Hl Hb Hs Hseg Hd6.
+  assert (Hd : 1 <= derived) by lia.
   destruct p as [dst dstw pm pc pn pmsg]. cbn in Hn, w, cf. subst pn.
   subst cf seg derived large w.
   unfold st1.
@@ -351,9 +382,10 @@ Proof.
   { destruct Hb as [Hb|[Hb|Hb]]; subst bits; reflexivity. }
   unfold transaction_start.
   destruct (zlen d =? 0) eqn:Ez.
-  - pose proof Ez as Ez'. apply Z.eqb_eq in Ez'. rewrite Ez' in Hd. cbn in Hd.
+  - pose proof Ez as Ez'. apply Z.eqb_eq in Ez'. rewrite Ez' in Hd, Hd6. cbn in Hd, Hd6.
     repeat (progress (sx; rewrite ?Hl, ?Ez, ?E2, ?E3;
                       rewrite ?mfsl_ok by (unfold hdr_len, fss_len, crc_len; cbn; lia);
+                      rewrite ?eof_fits_false by (unfold hdr_len, fss_len, crc_len; cbn; lia);
                       unfold fs_file_exists, exists_, fs_file_size)).
     unfold Inv. rewrite Ez'. eexists. split; [reflexivity|]. unfold set; cbn.
     repeat split; try reflexivity; try lia; try (left; split; reflexivity).
@@ -363,6 +395,7 @@ Proof.
   - pose proof Ez as Ez'. apply Z.eqb_neq in Ez'.
     repeat (progress (sx; rewrite ?Hl, ?Ez, ?E2, ?E3;
                       rewrite ?mfsl_ok by (unfold hdr_len, fss_len, crc_len; cbn; lia);
+                      rewrite ?eof_fits_false by (unfold hdr_len, fss_len, crc_len; cbn; lia);
                       unfold fs_file_exists, exists_, fs_file_size)).
     unfold Inv. eexists. split; [reflexivity|]. unfold set; cbn.
     repeat split; try reflexivity; try lia; try (left; split; reflexivity).
@@ -370,6 +403,56 @@ Proof.
     destruct (r_max_seg r) as [m|]; [|lia].
     destruct (m <? _) eqn:E; [apply Z.ltb_lt in E | apply Z.ltb_ge in E]; lia.
 Qed.
+
+Lemma eof_small_true : forall h maxp (o : option Z),
+  (o = None \/ maxp < hdr_len h + 6 + fss_len h + crc_len h) -> forall z, o = Some z ->
+  (maxp <? hdr_len h + 1 + 1 + 4 + fss_len h + crc_len h) = true.
+Proof. intros h maxp o [H|H] z Hz; [rewrite H in Hz; discriminate | apply Z.ltb_lt; lia]. Qed.
+
+(* a maximum packet length that cannot hold a File Data PDU, or cannot hold an EOF PDU, is a ValueError *)
+Lemma packet_too_small_refused : forall s p r sn dn d,
+  s_put s = Some p -> pr_names p = Some (sn, dn) -> q_rcfg (s_p s) = Some r ->
+  lookup (fs_s s) sn = Some (File d) -> q_file_size (s_p s) = Some 0 -> q_md_only (s_p s) = false ->
+  (s_seq_bits s = 8 \/ s_seq_bits s = 16 \/ s_seq_bits s = 32) -> 0 <= s_seq_count s < 2 ^ s_seq_bits s ->
+  let w := Z.max (l_idw (s_cfg s)) (pr_dstw p) in
+  let h := mkHdr TOWARDS_RECEIVER (sc_mode (q_conf (s_p s))) (r_crc r) (4294967295 <? zlen d)
+                 (l_id (s_cfg s)) (pr_dst p) w (s_seq_count s) (s_seq_bits s / 8) in
+  (max_file_seg_len h (r_max_packet r) = None \/ r_max_packet r < hdr_len h + 6 + fss_len h + crc_len h) ->
+  snd (transaction_start s) = Err E_VALUE.
+Proof.
+  intros s p r sn dn d Hp Hn Hr Hl Hfs Hmd Hb Hc w h Hsmall.
+  unfold fs_s in *.
+  assert (Hex : fs_file_exists (e_fs (s_env s)) sn = true)
+    by (unfold fs_file_exists, exists_; rewrite Hl; reflexivity).
+  assert (Hsz : fs_file_size (e_fs (s_env s)) sn = Ok (zlen d))
+    by (unfold fs_file_size; rewrite Hl; reflexivity).
+  clear Hl.
+  destruct s as [cfg st step rdy qu q sb pt sc sbits env].
+  destruct q as [tid ckt akt akc ce pr sl fsz ef mdo fn rc cl conf]. destruct conf.
+  cbn in Hp, Hr, Hfs, Hmd, Hex, Hsz, Hb, Hc, w, h. subst.
+  assert (E3 : (sbits =? 8) || (sbits =? 16) || (sbits =? 32) = true).
+  { destruct Hb as [Hb|[Hb|Hb]]; subst sbits; reflexivity. }
+  assert (Hc' : (2 ^ sbits <=? sc) = false) by (apply Z.leb_gt; lia).
+  unfold transaction_start, put_or_assert, srcfg_or_assert, gq, setq, semit, bind, get, put, gets, modify, ret, raise, when.
+  cbn. rewrite Hn. cbn. rewrite Hex, Hsz. cbn.
+  assert (Hz : zlen d = 0 -> (4294967295 <? zlen d) = false) by (intro E; rewrite E; reflexivity).
+  unfold h in Hsmall. clear h.
+  destruct (zlen d =? 0) eqn:Ez.
+  - apply Z.eqb_eq in Ez. rewrite (Hz Ez) in Hsmall.
+    cbn. rewrite E3, Hc'. cbn. unfold hdr_of. cbn [Source.sc_mode Source.sc_crc Source.sc_large Source.sc_src Source.sc_dst Source.sc_srcw Source.sc_seq Source.sc_seqw].
+    fold w. destruct (max_file_seg_len _ _) as [z|] eqn:Em; [|reflexivity].
+    pose proof (eof_small_true _ _ _ Hsmall z eq_refl) as Et.
+    match goal with |- context [if ?a <? ?b then (fun s0 : src => (s0, Err E_VALUE)) else _] =>
+      replace (a <? b) with true by (symmetry; exact Et) end.
+    reflexivity.
+  - cbn. rewrite E3, Hc'. cbn. unfold hdr_of. cbn [Source.sc_mode Source.sc_crc Source.sc_large Source.sc_src Source.sc_dst Source.sc_srcw Source.sc_seq Source.sc_seqw].
+    fold w. destruct (max_file_seg_len _ _) as [z|] eqn:Em; [|reflexivity].
+    pose proof (eof_small_true _ _ _ Hsmall z eq_refl) as Et.
+    match goal with |- context [if ?a <? ?b then (fun s0 : src => (s0, Err E_VALUE)) else _] =>
+      replace (a <? b) with true by (symmetry; exact Et) end.
+    reflexivity.
+Qed.
+
 
 Local Arguments transaction_start : simpl never.
 Local Arguments prepare_metadata_pdu : simpl never.
@@ -419,7 +502,7 @@ Lemma src_stream :
   get_remote (l_remotes c) (pr_dst p) = Some r ->
   pr_names p = Some (sn, dn) -> lookup fs sn = Some (File d) -> sn <> [] ->
   (bits = 8 \/ bits = 16 \/ bits = 32) -> 0 <= seq0 < 2 ^ bits ->
-  1 <= seg -> (mode = ACKED \/ mode = UNACKED) ->
+  1 <= seg -> 6 <= derived -> (mode = ACKED \/ mode = UNACKED) ->
   calculate_checksum (r_cktype r) (Some d) (zlen d) seg = Ok cks ->
   (mode = ACKED -> 0 < r_ack_ms r) -> (mode = UNACKED -> closure = true -> 0 < l_check_ms c) ->
   let s1 := fst (put_request p (src_fresh c seq0 bits fs)) in
@@ -432,9 +515,9 @@ Lemma src_stream :
                  else if closure then SS_WAITING_FOR_FINISHED else SS_IDLE).
 Proof.
   intros c seq0 bits fs p r sn dn d cks w large derived seg mode closure h msgs
-         Hr Hn Hl Hsn Hb Hs Hseg Hmode Hck Hack Hchk s1.
+         Hr Hn Hl Hsn Hb Hs Hseg Hd6 Hmode Hck Hack Hchk s1.
   set (cf := mkSconf (l_id c) w (pr_dst p) w seq0 (bits / 8) mode large (r_crc r)).
-  destruct (ts_ok c seq0 bits fs p r sn dn d mode closure Hn Hl Hb Hs Hseg) as [s2 [T1 T2]].
+  destruct (ts_ok c seq0 bits fs p r sn dn d mode closure Hn Hl Hb Hs Hseg Hd6) as [s2 [T1 T2]].
   fold w large cf in T2. fold derived in T2. fold seg in T2.
   destruct (md_pump c p r fs d cf seg closure (l_id c, seq0) sn dn Hn _ T2) as [s3 [M1 M2]].
   assert (Hlen : (length (zdrop 0 d) <= length d)%nat) by (rewrite zdrop_0; apply le_n).
